@@ -116,8 +116,10 @@ SEEDS: dict[str, list[tuple]] = {
     "template-comp": [("create_study", "A", (MIN, MAX)), ("create_trial", 0, "comp")],
     "two-studies": [("create_study", "A", (MIN,)), ("create_study", "B", (MAX,)), ("create_trial", 1, None),
                     ("create_trial", 0, None)],
-    "recreated": [("create_study", "A", (MIN,)), ("create_trial", 0, None), ("delete_study", 0),
-                  ("create_study", "A", (MAX,))],
+    # the deleted study's trials carried every kind of child row (params, values, attrs, intermediate
+    # values): whatever survives the delete re-attaches to the ids SQLite re-issues
+    "recreated": [("create_study", "A", (MIN,)), ("create_trial", 0, "comp"), ("create_trial", 0, "run"),
+                  ("delete_study", 0), ("create_study", "A", (MAX,))],
     "wait-run-fin": [("create_study", "A", (MIN,)), ("create_trial", 0, "wait"), ("create_trial", 0, None),
                      ("set_state", 1, S.COMPLETE, (2.0,)), ("read_waiting", 0, False)],
     "param": [("create_study", "A", (MIN,)), ("create_trial", 0, None), ("set_param", 0, "p", "f", 0.5),
